@@ -29,6 +29,16 @@ import (
 // ---------------------------------------------------------------- model of a CU's resources
 type cuSpec struct {
 	simds, slots, sgprs, vgprsPerLane, lds int
+	// vgprsLast > 0: the last SIMD's register file holds this many VGPRs per lane instead of vgprsPerLane
+	// (DispatchableCU.VRegCounts is a per-SIMD list; nothing says the entries are equal)
+	vgprsLast int
+}
+
+func (s cuSpec) vgprsOf(simd int) int {
+	if s.vgprsLast > 0 && simd == s.simds-1 {
+		return s.vgprsLast
+	}
+	return s.vgprsPerLane
 }
 
 type envCU struct {
@@ -48,7 +58,7 @@ func (c *envCU) WfPoolSizes() []int {
 func (c *envCU) VRegCounts() []int {
 	s := make([]int, c.spec.simds)
 	for i := range s {
-		s[i] = c.spec.vgprsPerLane * 64
+		s[i] = c.spec.vgprsOf(i) * 64
 	}
 	return s
 }
@@ -177,7 +187,11 @@ func body(c cfg) explore.Body {
 		// probe: one work-group per CU that needs the CU's whole capacity, launched after everything else finished
 		var probes []*launch
 		for _, s := range c.cus {
-			probes = append(probes, mkLaunch(kern{wgs: 1, wfPerWG: s.simds * s.slots, sgpr: s.sgprs / (s.simds * s.slots), vgpr: s.vgprsPerLane / s.slots, lds: s.lds}))
+			minV := s.vgprsPerLane // every wavefront of the probe asks for the same number: the smallest register file decides
+			if s.vgprsLast > 0 && s.vgprsLast < minV {
+				minV = s.vgprsLast
+			}
+			probes = append(probes, mkLaunch(kern{wgs: 1, wfPerWG: s.simds * s.slots, sgpr: s.sgprs / (s.simds * s.slots), vgpr: minV / s.slots, lds: s.lds}))
 		}
 		_ = probes
 
@@ -269,8 +283,8 @@ func body(c cfg) explore.Body {
 						if ns.hi > spec.sgprs*4 {
 							fail("sgpr-beyond-capacity", "kernel %d wg %d on CU%d: SGPR bytes [%d,%d) capacity %d", q.k, q.wg, q.cu, ns.lo, ns.hi, spec.sgprs*4)
 						}
-						if nv.hi > spec.vgprsPerLane*4 {
-							fail("vgpr-beyond-capacity", "kernel %d wg %d on CU%d SIMD%d: VGPR bytes/lane [%d,%d) capacity %d", q.k, q.wg, q.cu, loc.SIMDID, nv.lo, nv.hi, spec.vgprsPerLane*4)
+						if nv.hi > spec.vgprsOf(loc.SIMDID)*4 {
+							fail("vgpr-beyond-capacity", "kernel %d wg %d on CU%d SIMD%d: VGPR bytes/lane [%d,%d) capacity %d", q.k, q.wg, q.cu, loc.SIMDID, nv.lo, nv.hi, spec.vgprsOf(loc.SIMDID)*4)
 						}
 						for _, o := range sg {
 							if overlap(o, ns) {
@@ -526,6 +540,8 @@ func main() {
 	}
 	small := cuSpec{simds: 2, slots: 2, sgprs: 64, vgprsPerLane: 16, lds: 1024}
 	tiny := cuSpec{simds: 1, slots: 2, sgprs: 32, vgprsPerLane: 8, lds: 512}
+	uneven := cuSpec{simds: 2, slots: 4, sgprs: 128, vgprsPerLane: 32, lds: 2048, vgprsLast: 16}
+	kV := kern{wgs: 4, wfPerWG: 2, sgpr: 16, vgpr: 12, lds: 0} // VGPR-bound: SIMD 1 of the uneven CU holds one such wavefront, SIMD 0 two
 	type sc struct {
 		name string
 		c    cfg
@@ -554,6 +570,9 @@ func main() {
 			pre := fmt.Sprintf("%s/disp%d/", an, d)
 			list = append(list,
 				sc{pre + "1cu/kA", mkCfg(0, false, alg, d, []cuSpec{small}, []kern{kA})},
+				// SIMD 1 has half the vector registers of SIMD 0
+				sc{pre + "1cu-uneven-vgprs/kV", mkCfg(0, false, alg, d, []cuSpec{uneven}, []kern{kV})},
+				sc{pre + "1cu-uneven-vgprs/kA+kV", mkCfg(0, false, alg, d, []cuSpec{uneven}, []kern{kA, kV})},
 				sc{pre + "2cu/kA", mkCfg(0, false, alg, d, []cuSpec{small, small}, []kern{kA})},
 				sc{pre + "2cu/kBig", mkCfg(0, false, alg, d, []cuSpec{small, small}, []kern{kBig})},
 				sc{pre + "1cu/kZero", mkCfg(0, false, alg, d, []cuSpec{tiny}, []kern{kZero})},
